@@ -67,6 +67,11 @@ func (fr *Frame) doCallCommon(ins ssa.Instruction, c *ssa.CallCommon, pc *string
 		return rs
 	}
 	names := calleeNames(c)
+	if len(names) > 0 && names[0] == "reflect.TypeOf" && len(args) == 1 {
+		// the reflect.Type of a value is a function of its dynamic type and of nothing else, and two of them are equal
+		// exactly if the dynamic types are: modelled as an interface value that carries the operand's type tag
+		return []string{fmt.Sprintf("(mk-iface (ite (= (i.tag %s) 0) 0 %d) (i.tag %s))", args[0], d.typeTagNamed("*reflect.rtype"), args[0])}
+	}
 	// contract?
 	var fc *FuncContract
 	var callee *ssa.Function
